@@ -30,6 +30,7 @@ type callCase struct {
 	Bcls    string `json:"bcls"`
 	Ctype   string `json:"ctype"`
 	Handler string `json:"handler"`
+	Route   string `json:"route"`
 }
 
 // classText: the text of a value class for a scalar kind ("" + false = the class does not exist).
@@ -112,7 +113,7 @@ func checkC01(c *chk.Ctx) {
 	schema := &abs.Schema{}
 	bodyVerb := func(v string) bool { return v == "POST" || v == "PUT" || v == "PATCH" }
 	for _, cc := range cases {
-		k := cc.Verb + "|" + cc.Kind + "|" + cc.Bshape
+		k := cc.Verb + "|" + cc.Kind + "|" + cc.Bshape + "|" + cc.Route
 		if _, ok := shapes[k]; ok {
 			continue
 		}
@@ -132,10 +133,12 @@ func checkC01(c *chk.Ctx) {
 		pk := f.Pkg
 		sh.svc, sh.meth, sh.in = fmt.Sprintf("S%d", sh.idx), fmt.Sprintf("M%d", sh.idx), fmt.Sprintf("%s.Req%d", pk, sh.idx)
 		msg := &abs.Message{Name: fmt.Sprintf("Req%d", sh.idx)}
-		msg.Fields = append(msg.Fields,
-			&abs.Field{Name: "p", Num: 1, Kind: cc.Kind, Card: "one", Rules: abs.NoRules()},
-			&abs.Field{Name: "q", Num: 2, Kind: cc.Kind, Card: "one", Rules: abs.NoRules(), Ann: abs.Ann{Query: true}},
-			&abs.Field{Name: "rq", Num: 3, Kind: cc.Kind, Card: "one", Rules: abs.NoRules(), Ann: abs.Ann{Query: true, QueryReq: true}})
+		if cc.Route != "default" {
+			msg.Fields = append(msg.Fields,
+				&abs.Field{Name: "p", Num: 1, Kind: cc.Kind, Card: "one", Rules: abs.NoRules()},
+				&abs.Field{Name: "q", Num: 2, Kind: cc.Kind, Card: "one", Rules: abs.NoRules(), Ann: abs.Ann{Query: true}},
+				&abs.Field{Name: "rq", Num: 3, Kind: cc.Kind, Card: "one", Rules: abs.NoRules(), Ann: abs.Ann{Query: true, QueryReq: true}})
+		}
 		if bodyVerb(cc.Verb) {
 			b := &abs.Field{Name: "b", Num: 4, Kind: "string", Card: "one", Rules: abs.NoRules()}
 			switch cc.Bshape {
@@ -165,8 +168,13 @@ func checkC01(c *chk.Ctx) {
 			msg.Fields = append(msg.Fields, b)
 		}
 		f.Messages = append(f.Messages, msg)
-		f.Services = append(f.Services, &abs.Service{Name: sh.svc, Methods: []*abs.Method{{Name: sh.meth, In: sh.in, Out: pk + ".Out", HasCfg: true,
-			Path: fmt.Sprintf("/s%d/{p}", sh.idx), Verb: cc.Verb}}})
+		if cc.Route == "default" {
+			// no http config at all: the route is the documented default one
+			f.Services = append(f.Services, &abs.Service{Name: sh.svc, Methods: []*abs.Method{{Name: sh.meth, In: sh.in, Out: pk + ".Out"}}})
+		} else {
+			f.Services = append(f.Services, &abs.Service{Name: sh.svc, Methods: []*abs.Method{{Name: sh.meth, In: sh.in, Out: pk + ".Out", HasCfg: true,
+				Path: fmt.Sprintf("/s%d/{p}", sh.idx), Verb: cc.Verb}}})
+		}
 		shapes[k] = sh
 		order = append(order, sh)
 	}
@@ -212,7 +220,7 @@ func checkC01(c *chk.Ctx) {
 	ctHeader := map[string]string{"json": "", "proto": "application/x-protobuf", "octet": "application/octet-stream"}
 	skipped := 0
 	for _, cc := range cases {
-		sh := shapes[cc.Verb+"|"+cc.Kind+"|"+cc.Bshape]
+		sh := shapes[cc.Verb+"|"+cc.Kind+"|"+cc.Bshape+"|"+cc.Route]
 		m, err := val.New(files2, sh.in)
 		if err != nil {
 			c.Broken("%v", err)
@@ -237,9 +245,11 @@ func checkC01(c *chk.Ctx) {
 			}
 			m.Set(fd, v)
 		}
-		set1("p", cc.Pcls)
-		set1("q", cc.Qcls)
-		set1("rq", cc.Qcls)
+		if cc.Route != "default" {
+			set1("p", cc.Pcls)
+			set1("q", cc.Qcls)
+			set1("rq", cc.Qcls)
+		}
 		if bodyVerb(cc.Verb) && ok {
 			fd := fds.ByName("b")
 			big := cc.Bcls == "max"
@@ -297,7 +307,7 @@ func checkC01(c *chk.Ctx) {
 			ReqB64: base64.StdEncoding.EncodeToString(val.Det(m)), ClientOpts: drv.ClientOpts{ContentType: ctHeader[cc.Ctype]},
 			Handler: drv.HandlerCfg{Kind: "ok", RespType: string(out.Descriptor().FullName()), RespB64: base64.StdEncoding.EncodeToString(val.Det(out))}}
 		ops = append(ops, op)
-		preps = append(preps, &prepared{cc: cc, sh: sh, req: m, note: fmt.Sprintf("%s kind=%s p=%s q=%s b=%s/%s ct=%s", cc.Verb, cc.Kind, cc.Pcls, cc.Qcls, cc.Bshape, cc.Bcls, cc.Ctype)})
+		preps = append(preps, &prepared{cc: cc, sh: sh, req: m, note: fmt.Sprintf("%s route=%s kind=%s p=%s q=%s b=%s/%s ct=%s", cc.Verb, cc.Route, cc.Kind, cc.Pcls, cc.Qcls, cc.Bshape, cc.Bcls, cc.Ctype)})
 	}
 	c.Infof("%d calls over %d RPC shapes (%d class/kind combinations do not exist and were skipped)", len(preps), len(order), skipped)
 	evs := runDrv(c, bin, w.Root, ops)
@@ -318,6 +328,10 @@ func checkC01(c *chk.Ctx) {
 			return out
 		}
 		fields := []string{"p", "q", "rq"}
+		pathVars, query := []string{"p"}, []map[string]any{{"field": "q", "name": "q", "required": false}, {"field": "rq", "name": "rq", "required": true}}
+		if p.cc.Route == "default" {
+			fields, pathVars, query = []string{}, []string{}, []map[string]any{}
+		}
 		if bodyVerb(p.cc.Verb) {
 			fields = append(fields, "b")
 			if p.cc.Bshape == "oneof" {
@@ -332,8 +346,7 @@ func checkC01(c *chk.Ctx) {
 			out.Set(out.Descriptor().Fields().ByName("n"), protoreflect.ValueOfInt64(7))
 			outTok = val.Message(out)
 		}
-		rpc := map[string]any{"name": p.sh.meth, "verb": p.cc.Verb, "fields": fields, "pathVars": []string{"p"},
-			"query": []map[string]any{{"field": "q", "name": "q", "required": false}, {"field": "rq", "name": "rq", "required": true}}}
+		rpc := map[string]any{"name": p.sh.meth, "verb": p.cc.Verb, "fields": fields, "pathVars": pathVars, "query": query}
 		seg := &trace.Segment{ID: i, Meta: p}
 		seg.Lines = append(seg.Lines, jsonLine(map[string]any{"event": "Call", "case": id, "note": p.note,
 			"call": map[string]any{"rpc": rpc, "value": toks(p.req, fields), "zero": toks(zero, fields), "ctype": p.cc.Ctype, "resp": outTok, "handler": "ok"}}))
@@ -345,8 +358,12 @@ func checkC01(c *chk.Ctx) {
 				path, _ := e["path"].(string)
 				parts := strings.Split(strings.TrimPrefix(path, "/"), "/")
 				litsOK := len(parts) == 2 && parts[0] == fmt.Sprintf("s%d", p.sh.idx)
+				if p.cc.Route == "default" {
+					// documented default: /<go package name>/<snake_case method>
+					litsOK = path == fmt.Sprintf("/cl%d/m%d", p.sh.pkg, p.sh.idx)
+				}
 				pathVals := []map[string]string{}
-				if len(parts) == 2 {
+				if len(parts) == 2 && p.cc.Route != "default" {
 					if dec, err := url.PathUnescape(parts[1]); err == nil {
 						if v, err := parseScalarText(md.Fields().ByName("p"), dec); err == nil {
 							tmp := dynamicpb.NewMessage(md)
@@ -360,6 +377,9 @@ func checkC01(c *chk.Ctx) {
 				queryVals := []map[string]string{}
 				q, _ := url.ParseQuery(fmt.Sprint(e["rawQuery"]))
 				for _, n := range []string{"q", "rq"} {
+					if p.cc.Route == "default" {
+						break
+					}
 					if vs, ok := q[n]; ok && len(vs) > 0 {
 						if v, err := parseScalarText(md.Fields().ByName(protoreflect.Name(n)), vs[0]); err == nil {
 							tmp := dynamicpb.NewMessage(md)
